@@ -32,7 +32,7 @@ NAMES = ["LICENSE", "LICENSE-MIT", "LICENSE.txt", "LICENSEX", "LICENCE", "LICENC
 DIR_NAMES = [".git", ".hg", ".sl", "LICENSES", ".reuse", "subprojects", "LICENSE", "x.license", "plaindir"]
 LOCS = ["", "d/", "d/e/", "LICENSES/", ".reuse/", ".git/", ".hg/", "subprojects/p/", "subprojects/"]
 KINDS = ["file", "empty", "symlink-file", "symlink-dir", "dir", "fifo"]
-RULES = ["*.log", "build/", "!keep.log", "/top.txt", "d/*.tmp", "d/"]
+RULES = ["*.log", "build/", "!keep.log", "/top.txt", "d/*.tmp", "d/", "*~"]
 
 
 def bounds(tier, seed):
@@ -299,11 +299,16 @@ def ev_git(c) -> R:
     r = R()
     root = fresh_dir("c03")
     rec = {p: f"content {p}\n" for p in GIT_FILES}
+    rules = [RULES[i] for i in c["rules"]]
+    rec["LICENSES/MIT.txt"] = "licence text\n"
+    if "*~" in rules:
+        # an editor's backup copy of a licence text, ignored by Git: it is no second text for MIT, and no file of the project at all
+        rec["LICENSES/MIT.txt~"] = "older licence text\n"
+        rec["d/y.py~"] = "backup\n"
     materialise(root, rec)
     gitrepo.git(root, "init", "-q")
-    tracked = [p for p, s in GIT_FILES.items() if s == "t"]
+    tracked = [p for p, s in GIT_FILES.items() if s == "t"] + ["LICENSES/MIT.txt"]
     gitrepo.git(root, "add", "-f", "--", *tracked)
-    rules = [RULES[i] for i in c["rules"]]
     if c["nested"]:
         (root / "d" / ".gitignore").write_text("*.tmp\n!x.tmp\nz.py\n")
     where = c.get("where", "gitignore")
